@@ -82,6 +82,11 @@ Theorem C03_step_law_outcomes_listed_once :
   forall s, SInv g s -> NoDup (map fst (law (select s))).
 Proof. exact (select_law_nodup g). Qed.
 
+(* ... and the masses sum to 1: nothing is lost to a failing branch *)
+Theorem C03_step_law_total_mass :
+  forall s, SInv g s -> 0 < total_rate s -> mass (law (select s)) == 1.
+Proof. exact (select_mass_one g). Qed.
+
 (* the total rate is the sum over the specification edges of rate x (sum of the weights of
    the enabled actors) *)
 Theorem C03_total_rate_is_sum_of_enabled :
@@ -142,6 +147,23 @@ Proof. exact xlt_spec. Qed.
 Theorem C03_graph_check_suffices : forall g, wf_graphb g = true -> wfg2 g.
 Proof. exact wf_graphb_wfg2. Qed.
 
+(* ---- simple_inv for every reachable state: start state, then any sequence of events the
+   selection can produce; the invariant, the rows invariant and the transition lists hold in
+   all of them, and every selectable event fires without a Python error *)
+Theorem C03_simple_inv_every_reachable_state :
+  forall g (Hg : wfg2 g) rstat full s0 s,
+  SInv g s0 -> RInv g rstat s0 -> reachable g rstat full s0 s ->
+  SInv g s /\ RInv g rstat s /\
+  map sl_tr (s_sp s) = map sl_tr (s_sp s0) /\ map sl_tr (s_in s) = map sl_tr (s_in s0).
+Proof. exact reachable_inv. Qed.
+
+Theorem C03_no_error_on_the_way :
+  forall g (Hg : wfg2 g) rstat full s0 s t i a sl,
+  SInv g s0 -> RInv g rstat s0 -> reachable g rstat full s0 s ->
+  nth_error (s_sp s ++ s_in s) i = Some sl -> sabs sl a <> None ->
+  exists s', fire g rstat full t s (i, a) = Ok s' /\ reachable g rstat full s0 s'.
+Proof. exact reachable_never_stuck. Qed.
+
 (* non-vacuity: a weighted SIS-like specification on the path 0-1-2 meets every hypothesis,
    and a scripted run of the extracted program on it performs one induced and one
    spontaneous event *)
@@ -149,13 +171,11 @@ Example C03_nonvacuous : C03_example_statement.
 Proof. exact C03_example_proof. Qed.
 
 (* Not proved here (kept visible):
-   - the sum of the masses of [law (select s)] is 1 (it follows from
-     C03_total_rate_is_sum_of_enabled and the three step-law theorems; not written out);
-   - whole-run "no EoNError from the loop": per step it is C03_simple_inv_step (every
-     selectable pair fires with [Ok]) and C03_simple_inv_initial; the induction over a whole
-     scripted run is not written out.  Crashes of a valid run can only come from [finish]
-     (Simulation_Investigation's constructor: KeyError / IndexError when return_statuses
-     does not cover the statuses, see the harness) or from fuel;
+   - whole-run "no EoNError from the loop" is stated over [reachable] states
+     (C03_no_error_on_the_way), not over [exec] of a draw script: the link "exec follows
+     only selectable pairs" is not written out.  Crashes of a valid run can only come from
+     [finish] (Simulation_Investigation's constructor: KeyError / IndexError when
+     return_statuses does not cover the statuses, see the harness) or from fuel;
    - the law of choose_random's rejection loop is Props/C16.v; here [law] uses its
      closed form weight/total. *)
 
@@ -166,6 +186,7 @@ Print Assumptions C03_candidates_are_enabled_pairs.
 Print Assumptions C03_step_law_sound.
 Print Assumptions C03_step_law_complete.
 Print Assumptions C03_step_law_outcomes_listed_once.
+Print Assumptions C03_step_law_total_mass.
 Print Assumptions C03_total_rate_is_sum_of_enabled.
 Print Assumptions C03_counts_track_statuses.
 Print Assumptions C03_malformed_rejected.
@@ -174,4 +195,6 @@ Print Assumptions C03_holding_rate_and_horizon.
 Print Assumptions C03_stops_when_nothing_enabled.
 Print Assumptions C03_horizon_test.
 Print Assumptions C03_graph_check_suffices.
+Print Assumptions C03_simple_inv_every_reachable_state.
+Print Assumptions C03_no_error_on_the_way.
 Print Assumptions C03_nonvacuous.
